@@ -56,25 +56,33 @@ ENCODED = [
 
 APP = "mitmproxy/tools/web/app.py"
 SECRET = "s3cret-token"
+SECRET2 = "p\xe4ssw\xf6rt-token"  # thorough tier: a configured non-ASCII plaintext password
 
-AUTH_HEADERS = [
-    ("absent", None),
-    ("bearer-right", "Bearer " + SECRET),
-    ("bearer-wrong", "Bearer wrong"),
-    ("bearer-prefix-of-secret", "Bearer " + SECRET[:-1]),
-    ("bearer-case-differs", "Bearer " + SECRET.upper()),
-    ("bearer-only", "Bearer"),
-    ("bearer-two-spaces-wrong", "Bearer  wrong"),
-    ("bearer-tab-wrong", "Bearer\twrong"),
-    ("basic-wrong", "Basic d3Jvbmc6d3Jvbmc="),
-    ("obs-text", "\xff\xfe"),
-    ("empty", ""),
-    ("lowercase-scheme-right", "bearer " + SECRET),
-    ("other-scheme-right", "Basic " + SECRET),
-    ("right-plus-suffix", "Bearer " + SECRET + " x"),
-    ("bearer-non-ascii", "Bearer p\xe4ssword"),  # header bytes are decoded as latin-1 by tornado
-]
-TOKENS = [("absent", None), ("right", SECRET), ("wrong", "wrong"), ("empty", ""), ("prefix", SECRET[:-1]), ("right-with-space", SECRET + " "), ("non-ascii", "p\xe4ss")]
+
+def _auth_headers(SECRET):
+    return [
+        ("absent", None),
+        ("bearer-right", "Bearer " + SECRET),
+        ("bearer-wrong", "Bearer wrong"),
+        ("bearer-prefix-of-secret", "Bearer " + SECRET[:-1]),
+        ("bearer-case-differs", "Bearer " + SECRET.upper()),
+        ("bearer-only", "Bearer"),
+        ("bearer-two-spaces-wrong", "Bearer  wrong"),
+        ("bearer-tab-wrong", "Bearer\twrong"),
+        ("basic-wrong", "Basic d3Jvbmc6d3Jvbmc="),
+        ("obs-text", "\xff\xfe"),
+        ("empty", ""),
+        ("lowercase-scheme-right", "bearer " + SECRET),
+        ("other-scheme-right", "Basic " + SECRET),
+        ("right-plus-suffix", "Bearer " + SECRET + " x"),
+        ("bearer-non-ascii", "Bearer p\xe4ssword"),  # header bytes are decoded as latin-1 by tornado
+    ]
+
+
+def _tokens(SECRET):
+    return [("absent", None), ("right", SECRET), ("wrong", "wrong"), ("empty", ""), ("prefix", SECRET[:-1]), ("right-with-space", SECRET + " "), ("non-ascii", "p\xe4ss")]
+
+
 COOKIES = [("absent", None), ("valid", b"y"), ("other-value", b"n"), ("empty", b"")]
 VERBS = ["get", "post", "put", "delete", "patch"]
 
@@ -124,15 +132,15 @@ def _fake_handler_cls():
     return Fake
 
 
-def h_wrapper(X):
+def h_wrapper(X, SECRET=SECRET):  # noqa: N803
     import tornado.httputil
     from mitmproxy.tools.web import app
     from mitmproxy.tools.web.webaddons import WebAuth
 
     Fake = _fake_handler_cls()
     verb = X.choose("verb", VERBS)
-    hname, hval = X.choose("authorization", AUTH_HEADERS)
-    tname, tval = X.choose("token", TOKENS)
+    hname, hval = X.choose("authorization", _auth_headers(SECRET))
+    tname, tval = X.choose("token", _tokens(SECRET))
     cname, cval = X.choose("cookie", COOKIES)
 
     auth = WebAuth()
@@ -162,7 +170,7 @@ def h_wrapper(X):
 
     cookie_valid = cval == app.AuthRequestHandler.AUTH_COOKIE_VALUE
     knows_secret = (hval is not None and SECRET in hval) or (tval is not None and SECRET in tval)
-    desc = f"{verb.upper()} Authorization={hname} token={tname} cookie={cname}"
+    desc = f"{verb.upper()} Authorization={hname} token={tname} cookie={cname}" + ("" if SECRET.isascii() else " (non-ASCII web_password)")
     # an exception out of the wrapper is neither an acceptance nor the 403 refusal the sentence asks for
     X.check(err is None, f"C46/auth/refusal-is-server-error/{type(err).__name__}",
             f"{desc}: the auth wrapper raised {type(err).__name__}: {err} -> tornado answers 500 instead of 403 (body ran: {ran})")
@@ -380,11 +388,12 @@ def _build_structure():
 
 
 def obligations(tier):
-    return [
-        Symx("auth-wrapper", h_wrapper,
-             bounds=f"{len(VERBS)} verbs (sync + async) x {len(AUTH_HEADERS)} Authorization shapes x {len(TOKENS)} token arguments x {len(COOKIES)} cookie states, secret fixed",
-             encoded=ENCODED[:3] + ENCODED[5:], must_reach=["must-refuse", "refused", "accepted/cookie", "accepted/bearer", "accepted/token"],
-             stubs=["tornado get_signed_cookie/set_signed_cookie/get_argument/set_status -> recorders", "auth_cookie_name -> constant"]),
+    wb = (f"{len(VERBS)} verbs (sync + async) x {len(_auth_headers(SECRET))} Authorization shapes x {len(_tokens(SECRET))} token arguments x "
+          f"{len(COOKIES)} cookie states")
+    wreach = ["must-refuse", "refused", "accepted/cookie", "accepted/bearer", "accepted/token"]
+    wstubs = ["tornado get_signed_cookie/set_signed_cookie/get_argument/set_status -> recorders", "auth_cookie_name -> constant"]
+    obs = [
+        Symx("auth-wrapper", h_wrapper, bounds=wb + " x plaintext secret (ASCII)", encoded=ENCODED[:3] + ENCODED[5:], must_reach=wreach, stubs=wstubs),
         Smt("route-table", _build_structure,
             bounds="every (route, verb in SUPPORTED_METHODS) row of the live Application router; `handlers` literal and Application.__init__ keywords lifted from the current source",
             encoded=ENCODED[:1] + ENCODED[4:5]),
@@ -392,3 +401,7 @@ def obligations(tier):
              bounds=f"7 tornado methods x {len(SFS_VALUES)} Sec-Fetch-Site values (incl. absent) x {len(SFS_NAMES)} header-name spellings",
              encoded=ENCODED[3:4], must_reach=["must-refuse", "allowed"]),
     ]
+    if tier != "quick":
+        obs.append(Symx("auth-wrapper-non-ascii-secret", lambda X: h_wrapper(X, SECRET2), bounds=wb + " x plaintext secret (non-ASCII web_password)",
+                        encoded=ENCODED[:3] + ENCODED[5:], must_reach=["must-refuse", "refused", "accepted/cookie"], stubs=wstubs))
+    return obs
